@@ -45,6 +45,9 @@ func (s *ctxSink) Violation(sig, summary string, witness interface{}) {
 	s.mu.Unlock()
 	s.c.Ev.Count("alarms_by_signature/"+sig, 1)
 	if n > maxPerSignature {
+		if os.Getenv("KEYLAB_VERBOSE") != "" { // development aid only
+			fmt.Printf("  (suppressed) %s: %s\n", sig, summary)
+		}
 		return
 	}
 	s.c.Violation(sig, summary, witness)
